@@ -3,10 +3,11 @@ package gvc
 import (
 	"fmt"
 	"go/ast"
-	"os"
-	"strings"
 	"go/token"
 	"go/types"
+	"golang.org/x/tools/go/ast/astutil"
+	"os"
+	"strings"
 
 	"golang.org/x/tools/go/ssa"
 )
@@ -30,6 +31,9 @@ func (x *Exec) step(st *State, fr *Frame, ins ssa.Instruction) bool {
 				// recovered from the latest executed definition among the variable's other references.
 				if v, ok := x.latestDefinition(fr, name); ok {
 					fr.names[name] = nameBinding{v: v}
+				} else if x.isBareVarDecl(in) {
+					// `var x T` and no definition executed yet: the declared zero value is the value
+					fr.names[name] = nameBinding{v: x.val(st, fr, in.X)}
 				} else {
 					delete(fr.names, name)
 				}
@@ -259,6 +263,33 @@ func derefType(t types.Type) types.Type {
 		return p.Elem()
 	}
 	return nil
+}
+
+// isBareVarDecl: the debug reference sits on the name of a `var x T` declaration without initialiser.
+func (x *Exec) isBareVarDecl(in *ssa.DebugRef) bool {
+	id, ok := in.Expr.(*ast.Ident)
+	if !ok || !id.Pos().IsValid() {
+		return false
+	}
+	for _, p := range x.P.Pkgs {
+		for _, f := range p.Syntax {
+			if f.Pos() <= id.Pos() && id.Pos() < f.End() {
+				path, _ := astutil.PathEnclosingInterval(f, id.Pos(), id.End())
+				for _, n := range path {
+					if vs, ok := n.(*ast.ValueSpec); ok {
+						for _, nm := range vs.Names {
+							if nm.Pos() == id.Pos() {
+								return len(vs.Values) == 0
+							}
+						}
+						return false
+					}
+				}
+				return false
+			}
+		}
+	}
+	return false
 }
 
 func debugName(in *ssa.DebugRef) string {
@@ -828,7 +859,18 @@ func (x *Exec) rangeNext(st *State, fr *Frame, in *ssa.Next) Val {
 	var vals []Val
 	vals = append(vals, Val{T: ok, Typ: types.Typ[types.Bool]})
 	for i := 1; i < tup.Len(); i++ {
-		vals = append(vals, x.freshVal(st, "range.kv", tup.At(i).Type()))
+		t := tup.At(i).Type()
+		if b, isBasic := t.(*types.Basic); isBasic && b.Kind() == types.Invalid && it.Dyn != nil {
+			// go/ssa types the component of a blank range variable as invalid: take it from the map
+			if mt, isMap := it.Dyn.Typ.Underlying().(*types.Map); isMap && !in.IsString {
+				if i == 1 {
+					t = mt.Key()
+				} else {
+					t = mt.Elem()
+				}
+			}
+		}
+		vals = append(vals, x.freshVal(st, "range.kv", t))
 	}
 	if it.Dyn != nil && !in.IsString {
 		if mt, isMap := it.Dyn.Typ.Underlying().(*types.Map); isMap {
